@@ -409,7 +409,9 @@ PanicPlans(P) ==
   \cup (IF P.kind.try /\ ~P.kind.async THEN {pl \in {<<F(x), Pn("f", y)>> : x \in ItemIds(P, {"and_then"}), y \in ItemIds(P, {"and_then"})} : pl[1].id # pl[2].id} ELSE {})
 JoinerOpts == [joiner |-> "eager", lazy |-> "default", transpose |-> "default", path |-> "default"]
 FamC18(dummy) ==
-  UNION {{Run(P, pl, IF P.kind.spawn /\ ~P.kind.async THEN {IdOf(b, 0, 1) : b \in BrSet(P)} ELSE {}) : pl \in PanicPlans(P)} :
+  \* thread-spawning macros: free-running behind gates; async macros with two branches: the first callback's future of every
+  \* branch is gated and the readiness orders are enumerated, so a panic is raised while a sibling is still pending
+  UNION {{Run(P, pl, IF (P.kind.spawn /\ ~P.kind.async) \/ (P.kind.async /\ NB(P) = 2) THEN {IdOf(b, 0, 1) : b \in BrSet(P)} ELSE {}) : pl \in PanicPlans(P)} :
          P \in {[Build(kd, "res", pr, StepC18, NoName, ExprInit, IF kd.try THEN "and_then" ELSE "then") EXCEPT !.hform = "call"] :
                   kd \in Kinds8, pr \in IF Tier = "quick" THEN {<<2>>, <<1, 2>>, <<2, 1, 2>>} ELSE Profiles(3, 2) \cup {<<3, 1, 2>>}}
                \* the same with a custom joiner between the branches and the macro
